@@ -21,7 +21,8 @@ func checkC16(c *Ctx) {
 		"(V1-multi) Read returns the head's byte count unchanged and calls the next Read only when the previous count is known <= 0; (V6) Read returns io.EOF only when no reader remains. " +
 		"TeeReadCloser: (V5) Write receives exactly p[:n] of this read on every path with n>0 before Read returns, and Read reports the source's count (or the writer's on a write error); Close closes the source if it is a Closer. " +
 		"Verdicts: a VIOLATION is reported only when the whole entry point was understood (every same-package call followed, no unrecognised update/loop/expression, the object not handed to unmodelled code); otherwise the finding is UNDECIDED. " +
-		"NOT decided: byte preservation for every chunking as a runtime fact; behaviour of the underlying readers/writers; that the budget is never modified elsewhere; stickiness of ErrStreamTooLarge on later Reads; concurrency of Multi/Limit; double user Close() calls; recursion and calls through function values (UNDECIDED when a rule depends on them)."
+		"NOTE only (never affects the verdict): TeeReadCloser.Close not clearing the source field; a constructor keeping the caller's slice as the list of sources (may-alias summary of the exported functions). " +
+		"NOT decided: what happens when the caller rewrites a slice of sources it passed while the stream is live (not a clause of the statement); byte preservation for every chunking as a runtime fact; behaviour of the underlying readers/writers; that the budget is never modified elsewhere; stickiness of ErrStreamTooLarge on later Reads; concurrency of Multi/Limit; double user Close() calls; recursion and calls through function values (UNDECIDED when a rule depends on them)."
 	r.Assumptions = append(r.Assumptions,
 		"underlying readers honour the io.Reader contract (0 <= n <= len(p)); io.Copy/io.CopyBuffer copy until EOF and return nil at EOF",
 		"the over-limit state of the limiting reader is exactly `budget < 0 after the post-read update`; with the N+1 cap the budget never goes below -1",
